@@ -27,6 +27,9 @@ class RefGen:
     def recipe(self):
         rng = self.rng
         ntop = rng.randint(2, self.max_top)
+        # a third of the recipes are "just_once heavy" (several persistent rows, nicknamed or not,
+        # of the same or of different tables): exercises what a continuation must restore
+        self.p_just_once = 0.55 if rng.random() < 0.33 else 0.15
         tops = []
         used_tables = []
         for i in range(ntop):
@@ -67,7 +70,7 @@ class RefGen:
             self.features.add("count0")
         elif r < 0.45:
             t["count"] = rng.choice([1, 2, 2, 3])
-        if top and rng.random() < 0.18:
+        if top and rng.random() < self.p_just_once:
             t["just_once"] = True
             self.features.add("just_once")
         fields = {}
